@@ -351,6 +351,8 @@ func runFS(o fsOpts) *result {
 							gw.SyncShadow(g)
 							return gw.Next(), true
 						}
+					case "file":
+						return g.NextFile(), true
 					case "cut":
 						// after a clean history: rebuilds of the tape cut at many byte offsets
 						if i > pivot {
